@@ -37,6 +37,9 @@ pub enum Call {
     Apply(u16),
     /// clear(i, i + 1), i = sel(x, initial length + 2), through the shared core's inner (public) mutex
     Clear(u16),
+    /// apply prepared proof number sel(x, #proofs) with its fork counter raised by one: the core turns it
+    /// down (Ok(false)); a refused call is a call like any other and must return in every schedule
+    ApplyRefused(u16),
 }
 
 impl Call {
@@ -239,6 +242,17 @@ async fn exec_shared(core: &SharedCore, call: &Call, init: &Initial) -> CallOut 
                 Err(e) => CallOut::Err(e.to_string()),
             }
         }
+        Call::ApplyRefused(x) => {
+            if init.proofs.is_empty() {
+                return CallOut::Applied(false);
+            }
+            let mut p = init.proofs[sel(*x, init.proofs.len() as u64) as usize].clone();
+            p.fork += 1;
+            match core.verify_and_apply_proof(&p).await {
+                Ok(b) => CallOut::Applied(b),
+                Err(e) => CallOut::Err(e.to_string()),
+            }
+        }
         Call::Clear(x) => {
             let i = sel(*x, len0 + 2);
             let mut guard = core.0.lock().await;
@@ -294,6 +308,17 @@ fn exec_plain(core: &mut Hypercore, call: &Call, init: &Initial) -> CallOut {
             }
             let p = &init.proofs[sel(*x, init.proofs.len() as u64) as usize];
             match block_on(core.verify_and_apply_proof(p)) {
+                Ok(b) => CallOut::Applied(b),
+                Err(e) => CallOut::Err(hypercore::replication::ReplicationMethodsError::from(e).to_string()),
+            }
+        }
+        Call::ApplyRefused(x) => {
+            if init.proofs.is_empty() {
+                return CallOut::Applied(false);
+            }
+            let mut p = init.proofs[sel(*x, init.proofs.len() as u64) as usize].clone();
+            p.fork += 1;
+            match block_on(core.verify_and_apply_proof(&p)) {
                 Ok(b) => CallOut::Applied(b),
                 Err(e) => CallOut::Err(hypercore::replication::ReplicationMethodsError::from(e).to_string()),
             }
@@ -631,6 +656,7 @@ fn call_strategy(replica: bool) -> BoxedStrategy<Call> {
     if replica {
         prop_oneof![
             6 => any::<u16>().prop_map(Call::Apply),
+            1 => any::<u16>().prop_map(Call::ApplyRefused),
             2 => any::<u16>().prop_map(Call::Missing),
             2 => any::<u16>().prop_map(Call::Get),
             1 => any::<u16>().prop_map(Call::Has),
@@ -676,9 +702,9 @@ pub fn small_programs() -> Vec<Program> {
         Call::Info,
         Call::CreateProof(0),
     ];
-    let ralpha = [Call::Apply(0), Call::Apply(0x5000), Call::Apply(0xffff), Call::Get(0x1000), Call::Missing(0x2000)];
+    let ralpha = [Call::Apply(0), Call::Apply(0x5000), Call::Apply(0xffff), Call::Get(0x1000), Call::Missing(0x2000), Call::ApplyRefused(0x5000)];
     let mut out = vec![];
-    for (replica, alpha) in [(false, &walpha), (true, &ralpha)] {
+    for (replica, alpha) in [(false, &walpha[..]), (true, &ralpha[..])] {
         let mut seqs: Vec<Vec<Call>> = vec![];
         for a in alpha.iter() {
             seqs.push(vec![a.clone()]);
